@@ -42,3 +42,18 @@ Theorem c14_named_trimmed :
 Proof. intros a n v rest num Hs (Hn & Hce & _ & Hcol & _). cbn [view_expander].
   rewrite (split_named_ok cls_expander a n v Hs Hn Hce), Hcol. reflexivity. Qed.
 Print Assumptions c14_named_trimmed.
+
+(* BEGIN PINS (tools/repin.py) *)
+From WTP Require Import Gen.GenPins.
+Module Pins.
+Import String.
+(* The models of this property were transcribed from: parser.py:TemplateNode.template_parameters, lua/_sandbox_phase2.lua:frame_args_index.
+   Gen/GenPins.v holds the digests of these functions in the current source (translate/pins.py: syntax tree without
+   docstrings, comments and layout).  A different digest means that the model is no longer known to describe the
+   code; the check then reports the broken tie and looks for a failing input. *)
+Theorem c14_models_describe_the_current_source :
+  (pin_template_parameters, pin_lua_frame_args_index) = ("3d1ee605e00f71c9", "1139f4740e06afaa")%string.
+Proof. reflexivity. Qed.
+Print Assumptions c14_models_describe_the_current_source.
+End Pins.
+(* END PINS *)
